@@ -98,136 +98,245 @@ Proof.
 Qed.
 
 (* ---- the invariant: stored summaries describe the stored values ------------------ *)
-Definition Good (c : option Z) (d : sdset) : Prop :=
+Definition Good (d : sdset) : Prop :=
   (forall v, a_min d = Some v -> v = nanmin_l (d_vals d))
   /\ (forall v, a_max d = Some v -> v = nanmax_l (d_vals d))
-  /\ (forall m, a_mean d = Some m -> mv_eq m (nanmean_l (d_vals d)))
-  /\ (forall n, c = Some n -> n = count_valid (d_vals d)).
+  /\ (forall m, a_mean d = Some m -> mv_eq m (nanmean_l (d_vals d))).
+
+Definition vals (s : state) : list fv := match ds s with Some d => d_vals d | None => [] end.
+
+(* the _valid_counts entry of an instance that is not in replace mode never
+   describes more events than the dataset holds, and is right when the sizes
+   match *)
+Definition EntryOK (l : list fv) (e : Z * winst) : Prop :=
+  match snd (snd e) with
+  | Some (sz, c) => fst (snd e) <> 1 -> 0 <= sz <= zlen l /\ (sz = zlen l -> c = count_valid l)
+  | None => True
+  end.
 
 Definition Inv (s : state) : Prop :=
-  match ds s with Some d => Good (cnt s) d | None => True end.
+  match ds s with Some d => Good d | None => True end
+  /\ Forall (EntryOK (vals s)) (insts s).
 
-Lemma write_good c old data :
-  match old with Some d => Good c d | None => True end ->
-  Good (Some (snd (write c old data))) (fst (write c old data))
-  /\ d_vals (fst (write c old data))
-     = match old with Some d => d_vals d | None => [] end ++ data.
+Lemma write_good old dt0 cache data :
+  match old with Some d => Good d | None => True end ->
+  (forall sz c d, old = Some d -> cache = Some (sz, c) -> sz = zlen (d_vals d) ->
+                  c = count_valid (d_vals d)) ->
+  let r := write old dt0 cache data in
+  Good (fst r)
+  /\ d_vals (fst r) = match old with Some d => d_vals d ++ map (cast (d_dt d)) data
+                                    | None => map (cast dt0) data end
+  /\ d_dt (fst r) = match old with Some d => d_dt d | None => dt0 end
+  /\ snd r = (zlen (d_vals (fst r)), count_valid (d_vals (fst r))).
 Proof.
-  intros HG. unfold write. destruct old as [d|].
-  - destruct HG as (Hmn & Hmx & Hme & Hc).
-    set (num_a := match c with Some n => n | None => count_valid (d_vals d) end).
+  intros HG HC. cbv zeta. unfold write. destruct old as [d|].
+  - destruct HG as (Hmn & Hmx & Hme).
+    set (st := map (cast (d_dt d)) data).
+    set (num_a := match cache with
+                  | Some (sz, c) => if sz =? zlen (d_vals d) then c else count_valid (d_vals d)
+                  | None => count_valid (d_vals d) end).
     assert (Hna : num_a = count_valid (d_vals d)).
-    { subst num_a. destruct c as [n|]; [now apply Hc|reflexivity]. }
+    { subst num_a. destruct cache as [[sz c]|]; [|reflexivity].
+      destruct (sz =? zlen (d_vals d)) eqn:E; [|reflexivity].
+      apply (HC sz c d eq_refl eq_refl). lia. }
     pose proof (count_valid_nonneg (d_vals d)) as Pa.
-    pose proof (count_valid_nonneg data) as Pb.
-    destruct (a_mean d) as [mean_a|] eqn:Em; cbn [fst snd d_vals a_min a_max a_mean];
-      (split; [|reflexivity]); unfold Good; cbn [d_vals a_min a_max a_mean].
-    + split; [|split; [|split]].
+    pose proof (count_valid_nonneg st) as Pb.
+    destruct (a_mean d) as [mean_a|] eqn:Em; cbn [fst snd d_vals d_dt a_min a_max a_mean];
+      (split; [|split; [reflexivity|split; [reflexivity|]]]).
+    + unfold Good; cbn [d_vals a_min a_max a_mean]. split; [|split].
       * intros v [= <-]. unfold upd_ext. destruct (a_min d) as [a|]; [|reflexivity].
         now rewrite (Hmn a eq_refl), nanmin_l_app.
       * intros v [= <-]. unfold upd_ext. destruct (a_max d) as [a|]; [|reflexivity].
         now rewrite (Hmx a eq_refl), nanmax_l_app.
       * intros m [= <-]. specialize (Hme mean_a eq_refl).
-        destruct (count_valid data =? 0) eqn:Eb.
+        destruct (count_valid st =? 0) eqn:Eb.
         -- rewrite nanmean_app_nan_r by lia. exact Hme.
         -- destruct (num_a =? 0) eqn:Ea.
            ++ rewrite nanmean_app_nan_l by lia. apply mv_eq_nanmean.
            ++ rewrite Hna. apply mean_update; [lia|lia|exact Hme].
-      * intros n [= <-]. rewrite count_valid_app. lia.
-    + split; [|split; [|split]].
+    + f_equal. rewrite count_valid_app. lia.
+    + unfold Good; cbn [d_vals a_min a_max a_mean]. split; [|split].
       * intros v [= <-]. unfold upd_ext. destruct (a_min d) as [a|]; [|reflexivity].
         now rewrite (Hmn a eq_refl), nanmin_l_app.
       * intros v [= <-]. unfold upd_ext. destruct (a_max d) as [a|]; [|reflexivity].
         now rewrite (Hmx a eq_refl), nanmax_l_app.
       * intros m [= <-]. apply mv_eq_nanmean.
-      * intros n [= <-]. reflexivity.
-  - cbn [fst snd d_vals]. split; [|reflexivity]. unfold Good; cbn [d_vals a_min a_max a_mean].
-    split; [|split; [|split]].
+    + reflexivity.
+  - cbn [fst snd d_vals d_dt]. split; [|split; [reflexivity|split; reflexivity]].
+    unfold Good; cbn [d_vals a_min a_max a_mean]. split; [|split].
     + now intros v [= <-].
     + now intros v [= <-].
     + intros m [= <-]. apply mv_eq_nanmean.
-    + intros n [= <-]. reflexivity.
 Qed.
 
-Definition vals (s : state) : list fv := match ds s with Some d => d_vals d | None => [] end.
-
-Lemma step_inv s o : Inv s -> Inv (step s o).
+Lemma In_set_inst i w l e : In e (set_inst i w l) -> e = (i, w) \/ In e l.
 Proof.
-  unfold Inv. intros HI. destruct o as [m|data| |mn mx me|raw]; cbn [step];
-    [| | | |cbn [ds cnt]; unfold Good; cbn [a_min a_max a_mean]; repeat split; discriminate].
-  - cbn [ds cnt]. destruct (m =? 2); [exact I|].
-    destruct (ds s) as [d|]; [|exact I].
-    destruct HI as (A & B & C & _). repeat split; auto. discriminate.
-  - destruct data as [|x data].
-    + cbn [ds cnt]. destruct (mode s =? 1); [exact I|exact HI].
-    + set (old := if mode s =? 1 then None else ds s).
-      assert (HO : match old with Some d => Good (cnt s) d | None => True end).
-      { subst old. destruct (mode s =? 1); [exact I|exact HI]. }
-      pose proof (write_good (cnt s) old (x :: data) HO) as [HW _].
-      destruct (write (cnt s) old (x :: data)) as [d c]. exact HW.
-  - cbn [ds cnt]. destruct (ds s) as [d|]; [|exact I]. cbn [option_map].
-    destruct HI as (A & B & C & _). unfold copy, Good; cbn [d_vals a_min a_max a_mean].
-    split; [|split; [|split]].
+  induction l as [|[j n] r IH]; simpl.
+  - intros [H|[]]. now left.
+  - destruct (i =? j); simpl; intros [H|H]; auto. destruct (IH H); auto.
+Qed.
+
+Lemma inst_of_In i l m c : inst_of i l = (m, Some c) -> In (i, (m, Some c)) l.
+Proof.
+  induction l as [|[j n] r IH]; simpl; [discriminate|].
+  destruct (i =? j) eqn:E; [|auto]. intros ->. left. f_equal. lia.
+Qed.
+
+Lemma zlen_app' {A} (a b : list A) : zlen (a ++ b) = zlen a + zlen b.
+Proof. unfold zlen. rewrite app_length. lia. Qed.
+
+(* entries stay right when the dataset grows by at least one event *)
+Lemma EntryOK_grow l st e : st <> [] -> EntryOK l e -> EntryOK (l ++ st) e.
+Proof.
+  intros Hne H. unfold EntryOK in *. destruct (snd (snd e)) as [[sz c]|]; [|exact I].
+  intros Hm. specialize (H Hm). rewrite zlen_app'.
+  assert (0 < zlen st) by (unfold zlen; destruct st; [congruence|simpl; lia]).
+  split; lia.
+Qed.
+
+Lemma step_inv forced s o : Inv s -> replace_ok s o = true -> Inv (step forced s o).
+Proof.
+  intros [HG HE] Hok. unfold Inv, vals in *.
+  destruct o as [i m|i isint data| |mn mx me|dt raw]; cbn [step].
+  - destruct (m =? 2); cbn [ds insts].
+    + split; [exact I|]. constructor; [exact I|constructor].
+    + split; [exact HG|]. apply Forall_forall. intros e He.
+      apply In_set_inst in He as [->|He]; [exact I|].
+      rewrite Forall_forall in HE. now apply HE.
+  - destruct (inst_of i (insts s)) as [m cache] eqn:Ei.
+    cbn [replace_ok] in Hok. unfold mode_of in Hok. rewrite Ei in Hok. cbn [fst] in Hok.
+    set (old := if m =? 1 then None else ds s).
+    assert (HO : match old with Some d => Good d | None => True end).
+    { subst old. destruct (m =? 1); [exact I|exact HG]. }
+    assert (HC : forall sz c d, old = Some d -> cache = Some (sz, c) ->
+                                sz = zlen (d_vals d) -> c = count_valid (d_vals d)).
+    { intros sz c d Hold -> Hsz. subst old. destruct (m =? 1) eqn:Em; [discriminate|].
+      rewrite Hold in HE. rewrite Forall_forall in HE.
+      specialize (HE _ (inst_of_In _ _ _ _ Ei)). unfold EntryOK in HE. cbn in HE.
+      apply HE; [lia|exact Hsz]. }
+    (* the other entries against the values the dataset had before this call *)
+    assert (HE' : Forall (EntryOK (match old with Some d => d_vals d | None => [] end))
+                         (insts s)).
+    { subst old. destruct (m =? 1) eqn:Em; [|exact HE].
+      rewrite Forall_forall in *. intros e He. specialize (HE e He).
+      rewrite forallb_forall in Hok. specialize (Hok e He).
+      unfold EntryOK in *. destruct e as [j [mj [[sz c]|]]]; cbn in *; [|exact I].
+      intros Hmj. replace (mj =? 1) with false in Hok by lia. discriminate. }
+    destruct data as [|x data]; cbn [ds insts].
+    + split; [exact HO|]. subst old. destruct (m =? 1) eqn:Em; [|exact HE]. exact HE'.
+    + pose proof (write_good old (match forced with Some t => t
+                                                   | None => if isint then DI64 else DF end)
+                             cache (x :: data) HO HC) as HW. cbv zeta in HW.
+      destruct (write old _ cache (x :: data)) as [d e] eqn:Ew. cbn [fst snd] in HW.
+      destruct HW as (G & V & _ & E). cbn [ds insts]. split; [exact G|].
+      apply Forall_forall. intros en Hen. apply In_set_inst in Hen as [->|Hen].
+      * unfold EntryOK. cbn. rewrite E. intros _. unfold zlen. split; [lia|auto].
+      * rewrite Forall_forall in HE'. specialize (HE' en Hen). rewrite V.
+        destruct old as [d0|].
+        -- apply EntryOK_grow; [discriminate|exact HE'].
+        -- change (map (cast _) (x :: data)) with ([] ++ map (cast
+             (match forced with Some t => t | None => if isint then DI64 else DF end)) (x :: data)).
+           apply EntryOK_grow; [discriminate|exact HE'].
+  - cbn [ds insts]. split; [|constructor]. destruct (ds s) as [d|]; [|exact I]. cbn [option_map].
+    unfold copy. destruct (d_vals d) eqn:Ev; [exact HG|]. rewrite <- Ev.
+    destruct HG as (A & B & C). unfold Good; cbn [d_vals a_min a_max a_mean].
+    split; [|split].
     + intros v [= <-]. destruct (a_min d) as [a|]; [now apply A|reflexivity].
     + intros v [= <-]. destruct (a_max d) as [a|]; [now apply B|reflexivity].
     + intros m [= <-]. destruct (a_mean d) as [a|]; [now apply C|apply mv_eq_nanmean].
-    + discriminate.
-  - cbn [ds cnt]. destruct (ds s) as [d|]; [|exact I]. cbn [option_map].
-    destruct HI as (A & B & C & _). unfold Good; cbn [d_vals a_min a_max a_mean].
-    split; [|split; [|split]].
+  - cbn [ds insts]. split; [|constructor]. destruct (ds s) as [d|]; [|exact I]. cbn [option_map].
+    destruct HG as (A & B & C). unfold Good; cbn [d_vals a_min a_max a_mean].
+    split; [|split].
     + destruct mn; [discriminate|exact A].
     + destruct mx; [discriminate|exact B].
     + destruct me; [discriminate|exact C].
-    + discriminate.
+  - cbn [ds insts]. split; [|constructor].
+    unfold Good; cbn [a_min a_max a_mean]. repeat split; discriminate.
 Qed.
 
-Lemma step_vals s o :
-  Inv s ->
-  vals (step s o)
-  = match o with
-    | OOpen m => if m =? 2 then [] else vals s
-    | OWrite data => if mode s =? 1 then data else vals s ++ data
-    | ORaw data => data
-    | _ => vals s
-    end
-  /\ mode (step s o) = match o with OOpen m => m | _ => mode s end.
+(* the model state seen as (instance modes, dtype and stored values) *)
+Definition proj (s : state) : list (Z * Z) * option (dtk * list fv) :=
+  (map (fun e : Z * winst => (fst e, fst (snd e))) (insts s),
+   option_map (fun d => (d_dt d, d_vals d)) (ds s)).
+
+Lemma smode_of_map i l :
+  smode_of i (map (fun e : Z * winst => (fst e, fst (snd e))) l) = mode_of i l.
 Proof.
-  intros HI. unfold vals. destruct o as [m|data| |mn mx me|raw]; cbn [step];
-    [| | | |cbn [ds mode d_vals]; split; reflexivity].
-  - cbn [ds mode]. split; [|reflexivity]. now destruct (m =? 2).
-  - destruct data as [|x data].
-    + cbn [ds mode]. split; [|reflexivity].
-      destruct (mode s =? 1); [reflexivity|]. now rewrite app_nil_r.
-    + set (old := if mode s =? 1 then None else ds s).
-      assert (HO : match old with Some d => Good (cnt s) d | None => True end).
-      { subst old. destruct (mode s =? 1); [exact I|exact HI]. }
-      pose proof (write_good (cnt s) old (x :: data) HO) as [_ HV].
-      destruct (write (cnt s) old (x :: data)) as [d c]. cbn [ds mode fst] in *.
-      split; [|reflexivity]. rewrite HV. subst old. now destruct (mode s =? 1).
-  - cbn [ds mode]. split; [|reflexivity]. now destruct (ds s).
-  - cbn [ds mode]. split; [|reflexivity]. now destruct (ds s).
+  unfold mode_of. induction l as [|[j w] r IH]; simpl; [reflexivity|].
+  destruct (i =? j); [reflexivity|exact IH].
 Qed.
 
-Theorem history_inv : forall ops s, Inv s ->
-  Inv (run s ops) /\ vals (run s ops) = spec_vals (mode s) (vals s) ops.
+Lemma set_mode_map i m c l :
+  map (fun e : Z * winst => (fst e, fst (snd e))) (set_inst i (m, c) l)
+  = set_mode i m (map (fun e : Z * winst => (fst e, fst (snd e))) l).
 Proof.
-  unfold run. induction ops as [|o r IH]; intros s HI; [split; [exact HI|reflexivity]|].
-  cbn [fold_left]. destruct (IH (step s o) (step_inv s o HI)) as [I1 I2].
-  split; [exact I1|]. rewrite I2. destruct (step_vals s o HI) as [V M]. rewrite V, M.
-  destruct o; reflexivity.
+  induction l as [|[j w] r IH]; simpl; [reflexivity|].
+  destruct (i =? j); simpl; [reflexivity|now rewrite IH].
 Qed.
+
+Lemma step_proj forced s o : Inv s -> replace_ok s o = true ->
+  proj (step forced s o) = spec_step forced (proj s) o.
+Proof.
+  intros HI Hok. pose proof (step_inv forced s o HI Hok) as HI'.
+  unfold proj. destruct o as [i m|i isint data| |mn mx me|dt raw]; cbn [step spec_step].
+  - destruct (m =? 2); cbn [insts ds]; [reflexivity|]. now rewrite set_mode_map.
+  - rewrite smode_of_map. unfold mode_of.
+    destruct (inst_of i (insts s)) as [m cache] eqn:Ei. cbn [fst].
+    set (old := if m =? 1 then None else ds s).
+    assert (Hold : (if m =? 1 then None
+                    else option_map (fun d => (d_dt d, d_vals d)) (ds s))
+                   = option_map (fun d => (d_dt d, d_vals d)) old).
+    { subst old. now destruct (m =? 1). }
+    rewrite Hold.
+    destruct data as [|x data]; cbn [insts ds]; [reflexivity|].
+    destruct HI as [HG HE].
+    assert (HO : match old with Some d => Good d | None => True end).
+    { subst old. destruct (m =? 1); [exact I|exact HG]. }
+    assert (HC : forall sz c d, old = Some d -> cache = Some (sz, c) ->
+                                sz = zlen (d_vals d) -> c = count_valid (d_vals d)).
+    { intros sz c d Hd -> Hsz. subst old. destruct (m =? 1) eqn:Em; [discriminate|].
+      unfold vals in HE. rewrite Hd in HE. rewrite Forall_forall in HE.
+      specialize (HE _ (inst_of_In _ _ _ _ Ei)). unfold EntryOK in HE. cbn in HE.
+      apply HE; [lia|exact Hsz]. }
+    pose proof (write_good old (match forced with Some t => t
+                                                | None => if isint then DI64 else DF end)
+                           cache (x :: data) HO HC) as HW. cbv zeta in HW.
+    destruct (write old _ cache (x :: data)) as [d e]. cbn [fst snd] in HW.
+    destruct HW as (_ & V & T & _). cbn [insts ds option_map].
+    rewrite set_mode_map, V, T. destruct old as [d0|]; reflexivity.
+  - cbn [insts ds map]. f_equal. destruct (ds s) as [d|]; [|reflexivity]. cbn [option_map].
+    unfold copy. destruct (d_vals d) eqn:Ev; [now rewrite Ev|reflexivity].
+  - cbn [insts ds map]. f_equal. now destruct (ds s).
+  - reflexivity.
+Qed.
+
+Theorem history_inv forced : forall ops s, Inv s -> hist_ok forced s ops = true ->
+  Inv (run forced s ops)
+  /\ proj (run forced s ops) = fold_left (spec_step forced) ops (proj s).
+Proof.
+  unfold run. induction ops as [|o r IH]; intros s HI Hok; [split; [exact HI|reflexivity]|].
+  cbn [fold_left]. cbn [hist_ok] in Hok. apply andb_prop in Hok as [Ho Hr].
+  destruct (IH (step forced s o) (step_inv forced s o HI Ho) Hr) as [I1 I2].
+  split; [exact I1|]. now rewrite I2, step_proj.
+Qed.
+
+Lemma init_inv : Inv init.
+Proof. split; [exact I|constructor]. Qed.
 
 (* what the feature object reports after any history *)
-Theorem reported_summaries ops d :
-  ds (run init ops) = Some d ->
-  d_vals d = spec_vals 0 [] ops
+Theorem reported_summaries forced ops d :
+  hist_ok forced init ops = true ->
+  ds (run forced init ops) = Some d ->
+  spec_vals forced ops = Some (d_dt d, d_vals d)
   /\ rep_min d = nanmin_l (d_vals d)
   /\ rep_max d = nanmax_l (d_vals d)
   /\ mv_eq (rep_mean d) (nanmean_l (d_vals d)).
 Proof.
-  intros Hd. destruct (history_inv ops init I) as [HI HV].
-  unfold Inv, vals in *. rewrite Hd in *. destruct HI as (A & B & C & _).
-  split; [exact HV|]. unfold rep_min, rep_max, rep_mean.
+  intros Hok Hd. destruct (history_inv forced ops init init_inv Hok) as [[HG _] HV].
+  unfold spec_vals. change ([], None) with (proj init). rewrite <- HV.
+  unfold proj in *. rewrite Hd in *. cbn [snd option_map].
+  destruct HG as (A & B & C).
+  split; [reflexivity|]. unfold rep_min, rep_max, rep_mean.
   split; [|split].
   - destruct (a_min d) as [a|]; [now apply A|reflexivity].
   - destruct (a_max d) as [a|]; [now apply B|reflexivity].
@@ -235,15 +344,28 @@ Proof.
 Qed.
 
 (* stored attributes themselves (what rtdc_copy, join, export pass on) *)
-Theorem stored_summaries ops d :
-  ds (run init ops) = Some d ->
-  (forall v, a_min d = Some v -> v = nanmin_l (spec_vals 0 [] ops))
-  /\ (forall v, a_max d = Some v -> v = nanmax_l (spec_vals 0 [] ops))
-  /\ (forall m, a_mean d = Some m -> mv_eq m (nanmean_l (spec_vals 0 [] ops))).
+Theorem stored_summaries forced ops d :
+  hist_ok forced init ops = true ->
+  ds (run forced init ops) = Some d ->
+  (forall v, a_min d = Some v -> v = nanmin_l (d_vals d))
+  /\ (forall v, a_max d = Some v -> v = nanmax_l (d_vals d))
+  /\ (forall m, a_mean d = Some m -> mv_eq m (nanmean_l (d_vals d))).
 Proof.
-  intros Hd. destruct (history_inv ops init I) as [HI HV].
-  unfold Inv, vals in *. rewrite Hd in *. destruct HI as (A & B & C & _).
-  change (d_vals d = spec_vals 0 [] ops) in HV. rewrite <- HV. auto.
+  intros Hok Hd. destruct (history_inv forced ops init init_inv Hok) as [[HG _] _].
+  rewrite Hd in HG. exact HG.
+Qed.
+
+(* known finding C20-two-writers-replace-same-size: A writes [1, NaN]; B, a
+   second live writer in replace mode, re-creates the dataset with [3, 4] (the
+   size A remembers); A appends [5]: the stored mean is 4.25, not 4 *)
+Theorem reported_summaries_refuted :
+  exists forced ops d,
+    ds (run forced init ops) = Some d
+    /\ ~ mv_eq (rep_mean d) (nanmean_l (d_vals d)).
+Proof.
+  exists None, [OOpen 1 2; OWrite 1 false [Fin 8; NaN]; OOpen 2 1; OWrite 2 false [Fin 24; Fin 32];
+                OWrite 1 false [Fin 40]].
+  eexists. split; [vm_compute; reflexivity|]. vm_compute. intros (_ & _ & H). discriminate.
 Qed.
 
 (* the update before the repair (weights offset and data.size) is wrong as soon
@@ -256,22 +378,38 @@ Proof.
 Qed.
 
 (* ---- non-vacuity --------------------------------------------------------------------- *)
+(* two writers alive on one file (A, B, A), NaN batches, attributes removed,
+   a copy; the guard holds *)
 Example c20_nonvacuous :
-  let ops := [OOpen 2; OWrite [NaN; NaN]; OWrite [Fin 8; NaN; PInf]; OOpen 0; OWrite [Fin 24];
-              ODrop true false false; OOpen 0; OWrite [NInf; Fin (-16)]; OCopy;
-              OOpen 1; OWrite [Fin 8; NaN; NaN]; OOpen 0; OWrite [Fin 24]; OWrite [NaN]] in
-  exists d p q, ds (run init ops) = Some d
-            /\ d_vals d = [Fin 8; NaN; NaN; Fin 24; NaN]
-            /\ a_mean d = Some (MFin p q) /\ p * 2 = 32 * q /\ q <> 0
-            /\ rep_min d = Fin 8 /\ rep_max d = Fin 24.
+  let ops := [OOpen 0 2; OWrite 0 false [Fin 8; Fin 24]; OOpen 1 0; OWrite 1 false [Fin 40; Fin 56];
+              OWrite 0 false [Fin 72]; OWrite 1 false [NaN; NaN]; ODrop true false false;
+              OOpen 2 0; OWrite 2 false [NInf; Fin (-16)]; OCopy] in
+  exists d p q, hist_ok None init ops = true
+            /\ ds (run None init ops) = Some d
+            /\ d_vals d = [Fin 8; Fin 24; Fin 40; Fin 56; Fin 72; NaN; NaN; NInf; Fin (-16)]
+            /\ a_mean d = Some MNInf
+            /\ rep_min d = NInf /\ rep_max d = Fin 72
+            /\ option_map a_mean (ds (run None init (firstn 5 ops))) = Some (Some (MFin p q))
+            /\ p = 40 * q /\ q <> 0.
 Proof. eexists; eexists; eexists. vm_compute. repeat split; discriminate. Qed.
 
-Example c20_nonvacuous_mean :
-  let ops := [OOpen 2; OWrite [Fin 8; NaN; NaN]; OWrite [Fin 24]; OOpen 0; OWrite [NaN];
-              OWrite [Fin 40; Fin 8]] in
-  exists d p q, ds (run init ops) = Some d /\ a_mean d = Some (MFin p q)
-                /\ p * 4 = 80 * q /\ q <> 0.
-Proof. eexists; eexists; eexists. vm_compute. repeat split; discriminate. Qed.
+(* a replace-mode writer with other writers alive, allowed by the guard *)
+Example c20_nonvacuous_replace :
+  let ops := [OOpen 1 2; OWrite 1 false [Fin 8; NaN]; OOpen 2 1; OOpen 3 1;
+              OWrite 2 false [Fin 24]; OWrite 3 false [Fin 40; NaN]; OWrite 2 false [Fin 8]] in
+  hist_ok None init (firstn 3 ops) = true /\ hist_ok None init ops = false
+  /\ hist_ok None init [OOpen 2 1; OOpen 3 1; OWrite 2 false [Fin 24];
+                         OWrite 3 false [Fin 40; NaN]; OWrite 2 false [Fin 8]] = true.
+Proof. vm_compute. repeat split. Qed.
+
+(* integer features: what is stored (and summarised) is the converted value *)
+Example c20_nonvacuous_int :
+  let ops := [OOpen 0 2; OWrite 0 false [Fin 14; Fin 18]; OWrite 0 false [Fin 31; NaN; PInf]] in
+  exists d, ds (run (Some (DI 0 (2 ^ 32 - 1))) init ops) = Some d
+            /\ d_vals d = [Fin 8; Fin 16; Fin 24; Fin 0; Fin (8 * (2 ^ 32 - 1))]
+            /\ rep_max d = Fin (8 * (2 ^ 32 - 1)) /\ rep_min d = Fin 0
+            /\ spec_vals (Some (DI 0 (2 ^ 32 - 1))) ops = Some (d_dt d, d_vals d).
+Proof. eexists. vm_compute. repeat split. Qed.
 
 (* ---- hierarchy children across refreshes ---------------------------------------------- *)
 Definition OGood (s : hstate) (o : cobj) : Prop :=
@@ -320,7 +458,8 @@ Qed.
 
 Lemma hstep_inv s o : HInv s -> HInv (hstep s o).
 Proof.
-  intros HI. destruct o as [f| |w|]; unfold HInv; cbn [hstep h_changed h_obj].
+  intros HI. destruct o as [f| |w| |v]; unfold HInv; cbn [hstep h_changed h_obj];
+    [| | | |discriminate].
   - discriminate.
   - intros _. exact I.
   - intros Hc. destruct (hquery_good s w HI Hc) as [_ G]. exact G.
@@ -366,7 +505,8 @@ Theorem child_history ops : forall s, HInv s ->
           (hrun_out s ops) (spec_out s ops).
 Proof.
   induction ops as [|o r IH]; intros s HI; [constructor|].
-  destruct o as [f| |w|]; cbn [hrun_out spec_out].
+  destruct o as [f| |w| |v]; cbn [hrun_out spec_out];
+    [| | | |apply IH, (hstep_inv s (HData v)), HI].
   - apply IH, (hstep_inv s (HFilter f)), HI.
   - apply IH, (hstep_inv s HRefresh), HI.
   - constructor; [|apply IH, (hstep_inv s (HQuery w)), HI].
@@ -417,10 +557,11 @@ Example c20_child_nonvacuous :
   let vals := [Fin 8; NaN; Fin 24; Fin (-8); PInf] in
   let ops := [HQuery 0; HFilter [true; true; false; false; true]; HQuery 0; HRefresh;
               HQuery 0; HQuery 2; HFilter [false; true; true; true; false]; HRefresh;
-              HQuery 1; HQuery 2] in
+              HQuery 1; HQuery 2; HData [Fin 80; Fin 88; Fin 96; NaN; Fin 8]; HQuery 1;
+              HRefresh; HRead; HQuery 1] in
   hrun_out (hinit vals) ops
   = [(true, QF (Fin (-8))); (false, QF (Fin (-8))); (true, QF (Fin 8)); (true, QM MPInf);
-     (true, QF (Fin 24)); (true, QM (MFin 16 2))]
+     (true, QF (Fin 24)); (true, QM (MFin 16 2)); (false, QF (Fin 24)); (true, QF (Fin 96))]
   /\ h_changed (hrun (hinit vals) ops) = false.
 Proof. vm_compute. repeat split. Qed.
 
